@@ -4,12 +4,14 @@ package vkit
 
 import (
 	"bytes"
+	"encoding/binary"
 	"fmt"
 	"sort"
 
 	"github.com/emitter-io/emitter/internal/event"
 	"github.com/emitter-io/emitter/internal/event/crdt"
 	"github.com/emitter-io/emitter/internal/message"
+	"github.com/golang/snappy"
 	"github.com/weaveworks/mesh"
 	"pgregory.net/rapid"
 )
@@ -30,6 +32,9 @@ type CrdtOp struct {
 	T   int64  `json:"t,omitempty"`
 	P   int    `json:"p,omitempty"`
 	Hop bool   `json:"hop,omitempty"`
+	// Alien: the encoded payload additionally carries a subset of a type this version does not know (a newer broker
+	// in a mixed cluster): nothing of it can change the receiver, so it is no news either
+	Alien bool `json:"alien,omitempty"`
 }
 
 // CrdtCase is a history over a few replicas.
@@ -104,7 +109,11 @@ func GenCrdtCase(t *rapid.T) CrdtCase {
 			if pool == 0 {
 				continue
 			}
-			c.Ops = append(c.Ops, CrdtOp{K: "ship", R: rapid.IntRange(0, n-1).Draw(t, "r"), P: rapid.IntRange(0, 1000).Draw(t, "p"), Hop: rapid.Bool().Draw(t, "hop")})
+			op := CrdtOp{K: "ship", R: rapid.IntRange(0, n-1).Draw(t, "r"), P: rapid.IntRange(0, 1000).Draw(t, "p"), Hop: rapid.Bool().Draw(t, "hop")}
+			if op.Hop && rapid.IntRange(0, 5).Draw(t, "alien") == 0 {
+				op.Alien = true
+			}
+			c.Ops = append(c.Ops, op)
 			pool++ // a merge may return a delta that joins the pool
 		}
 	}
@@ -388,6 +397,10 @@ func RunCrdtCase(c CrdtCase, chk CrdtChecks) Result {
 			in := p.obj
 			if op.Hop {
 				enc := p.obj.Encode()
+				if op.Alien {
+					enc[0] = withAlienSubset(enc[0])
+					labels["payload-with-unknown-subset"] = true
+				}
 				var err error
 				if in, err = event.DecodeState(enc[0]); err != nil {
 					return Failf("%s: payload does not decode: %v", step, err)
@@ -465,4 +478,25 @@ func RunCrdtCase(c CrdtCase, chk CrdtChecks) Result {
 	}
 	sort.Strings(res.Labels)
 	return res
+}
+
+// withAlienSubset re-encodes a state payload with one more subset (type 7, one entry added at time 5).
+func withAlienSubset(enc []byte) []byte {
+	raw, err := snappy.Decode(nil, enc)
+	if err != nil {
+		panic(err)
+	}
+	n, k := binary.Uvarint(raw)
+	var out []byte
+	var b [10]byte
+	out = append(out, b[:binary.PutUvarint(b[:], n+1)]...)
+	out = append(out, raw[k:]...)
+	key := []byte("entry-of-a-newer-version")
+	val := make([]byte, 16)
+	binary.BigEndian.PutUint64(val, 5)
+	out = append(out, 7, 1, byte(len(key)))
+	out = append(out, key...)
+	out = append(out, byte(len(val)))
+	out = append(out, val...)
+	return snappy.Encode(nil, out)
 }
